@@ -97,7 +97,15 @@ class RuleCtx:
         """Record a function as analysed (FuncRef or qualified name)."""
         self.functions.add(getattr(f, "qual", f))
 
-    def violation(self, key, message, *, func=None, node=None, file=None, line=None, trace=None, construct=None):
+    def violation(self, key, message, *, func=None, node=None, file=None, line=None, trace=None, construct=None, props=None):
+        """``props``: the properties this finding convicts, when that is narrower than the rule's attachment list (a rule
+        that walks several classes or tables is attached to every property one of them serves; a finding in one class must
+        not alarm the check of a property served only by another)."""
+        if props is not None and self.run.prop not in props:
+            self.obligations += 1
+            self.discharged += 1
+            self.out_of_scope = getattr(self, "out_of_scope", 0) + 1
+            return
         self.obligations += 1
         if func is not None and file is None:
             file = func.file
